@@ -293,6 +293,36 @@ fn main() {
             }
             0
         }
+        "giant-times" => {
+            // giant-times <prop> <tier> <n> <seed>: wall time of the release solve for giant-formation cases
+            use proptest::strategy::{Strategy, ValueTree};
+            use proptest::test_runner::{Config, RngAlgorithm, TestRng, TestRunner};
+            let prop = &args[2];
+            let tier = &args[3];
+            let n: usize = args[4].parse().unwrap();
+            let seed: u64 = args.get(5).and_then(|s| s.parse().ok()).unwrap_or(1);
+            let engine = engine_pipeline::PipelineEngine::new(prop, tier);
+            let specs = runner::Engine::specs(&engine);
+            let strat = tape::tape_strategy(&specs);
+            let mut runner = TestRunner::new_with_rng(Config::default(), TestRng::from_seed(RngAlgorithm::ChaCha, &tape::expand_seed(seed, prop, 999)));
+            let mut done = 0;
+            while done < n {
+                let t = strat.new_tree(&mut runner).unwrap().current();
+                let inst = gen_inst::decode_inst(&t, &engine.cfg, "");
+                let fl = match inst::Flat::new(&inst) { Ok(f) => f, Err(_) => continue };
+                if !fl.segs.iter().any(|s| s.need > 100) {
+                    continue;
+                }
+                done += 1;
+                let input = inst.to_json().to_string();
+                let t0 = std::time::Instant::now();
+                let r = engine_pipeline::run_child("release", &["solve-one"], &input, std::time::Duration::from_secs(120), &[("RSV_SNAPSHOTS", "0")]);
+                let secs = t0.elapsed().as_secs_f64();
+                let st = match r { engine_pipeline::ChildResult::Answer { .. } => "answer", engine_pipeline::ChildResult::Timeout => "TIMEOUT", engine_pipeline::ChildResult::Panic { .. } => "panic", _ => "broken" };
+                println!("{:7.2}s {} segs={} slots={} fleet_need={} maxdist={:?} depots={} types={}", secs, st, fl.segs.len(), fl.slots.len(), fl.segs.iter().map(|s| s.lim.map(|l| l.min(s.need)).unwrap_or(s.need)).sum::<u64>(), inst.max_distance, inst.depots.as_ref().map(|d| d.len() as i64).unwrap_or(-1), inst.types.len());
+            }
+            0
+        }
         "fuzz-note" => {
             // fuzz-note <prop> <json>: merge the libFuzzer campaign facts into the evidence file
             let prop = &args[2];
